@@ -6,7 +6,7 @@ use ringops::*;
 fuzz_target!(|data: &[u8]| {
     let ops = ops_from_bytes(data);
     let mut st = RbStats::default();
-    if let Some((i, code)) = exec_ring(&ops, 1 << 16, &mut st) {
+    if let Some((i, code)) = exec_ring(&ops, 1 << 12, &mut st) {
         panic!("C04 ring: {} at op #{i}: {ops:?}", code_name(code));
     }
 });
